@@ -25,7 +25,7 @@ func c15Cfg() *DeclCfg {
 		Kinds:   append(append([]string{}, allKinds...), "map[string]int", "map[string]string", "map[int]string", "map[string]string", "[]string"),
 		MinOpts: 1, MaxOpts: 5, MaxGroups: 2, MaxSub: 1, MaxCmds: 3, MaxDepth: 2, Exec: true,
 		Env: true, Defaults: true, Required: true, Choices: true, Optional: true, Hidden: true, NoIni: true, IniName: true,
-		Base: true, Pos: true, Namespaces: true, Init: true, InitMulti: true, Descriptions: true, Aliases: true, ShortOnly: true, MultiByte: true,
+		Base: true, Pos: true, Namespaces: true, Init: true, InitMulti: true, Descriptions: true, Aliases: true, ShortOnly: true, MultiByte: true, DottedCmds: true,
 		ParserOpts: []uint{0, optHelpFlag, optHelpFlag | optPassDoubleDash, optHelpFlag | optPrintErrors | optPassDoubleDash, optIgnoreUnknown, optPassAfterNonOption | optHelpFlag, optHelpFlag | optIgnoreUnknown | optPrintErrors},
 	}
 }
@@ -99,6 +99,10 @@ func genIniForDecl(r *Rng, d *DeclSpec, dupSections bool) string {
 	}
 	if r.Chance(1, 6) {
 		b.WriteString("[No Such Group]\nx = 1\n")
+		if r.Bool() {
+			// several unknown sections: which one is reported must not depend on map order
+			b.WriteString("[Another Missing Group]\ny = 2\n[zzz.nope]\n")
+		}
 	}
 	if r.Chance(1, 6) {
 		b.WriteString("nosuchoption = 1\n")
@@ -295,6 +299,50 @@ func (propC15) Judge(sc *Scenario) *Verdict {
 			v.Class = "c15:clock-dependent:" + cls
 			v.Msg = fmt.Sprintf("same scenario, same schedule, same environment (SOURCE_DATE_EPOCH=%q), simulated clock moved from %d to %d: %s differs:\n  A: %s\n  B: %s",
 				sde, sc.World.Now, sc2.World.Now, field, clip(after(base[j]), 600), clip(after(obs[j]), 600))
+			break
+		}
+	}
+	// observer twin: rendering help, the man page or the INI text observes the
+	// parser; inserting such an evaluation must not change what any other
+	// operation of the history produces (repeated evaluations agree).
+	if v.OK && len(sc.Ops) > 0 && len(sc.Scheds) > 0 {
+		pos := int(hashStr(mustJSON(sc.Ops)) % uint64(len(sc.Ops)+1))
+		sc3 := *sc
+		obsOps := []Op{{Kind: "help"}, {Kind: "man"}, {Kind: "iniwrite", IniOpts: iniIncludeDefaults | iniIncludeComments}, {Kind: "iniwrite"}}
+		sc3.Ops = append(append(append([]Op{}, sc.Ops[:pos]...), obsOps...), sc.Ops[pos:]...)
+		o := Execute(&sc3, sc.Scheds[0])
+		v.Evals++
+		v.stat("twin.observer-insertion")
+		if o.HarnessPanic != "" {
+			return harnessTrouble(v, o.HarnessPanic)
+		}
+		// drop the inserted operations' results and compare the rest
+		o2 := *o
+		o2.Ops = append(append([]OpResult{}, o.Ops[:pos]...), o.Ops[pos+len(obsOps):]...)
+		obs := c15Observable(&o2)
+		dead := false
+		for _, r := range o.Ops[pos : pos+len(obsOps)] {
+			if r.Panic != "" || r.Exit || r.Budget {
+				dead = true // e.g. an invalid SOURCE_DATE_EPOCH makes the man page panic by design of the tree
+			}
+		}
+		for j := range obs {
+			if dead || (j < len(base) && obs[j] == base[j]) {
+				continue
+			}
+			field := strings.SplitN(obs[j], "=", 2)[0]
+			parts := strings.Split(field, ":")
+			cls := field
+			if len(parts) == 3 {
+				cls = parts[1] + ":" + parts[2]
+			}
+			bj := ""
+			if j < len(base) {
+				bj = base[j]
+			}
+			v.OK = false
+			v.Class = "c15:depends-on-earlier-evaluation:" + cls
+			v.Msg = fmt.Sprintf("the same history with WriteHelp, WriteManPage and two INI writes inserted before operation %d gives a different %s:\n  without: %s\n  with:    %s", pos, field, clip(after(bj), 600), clip(after(obs[j]), 600))
 			break
 		}
 	}
